@@ -5,6 +5,7 @@
 From Coq Require Import List Ascii String.
 From GT Require Import Base.GoStr Md.Parser Tree.Tree Tree.Gen Api.Simple Spec.Classify
   Spec.Spec Proofs.BuildTrie Proofs.GenItems Proofs.ParseClassify Proofs.NoLoss Proofs.Complete.
+From GT Require Import Conc.Splitter Conc.Pipeline Proofs.MassiveReject Proofs.MassiveFront Proofs.SpelledTop Proofs.SplitSchedule.
 Import ListNotations.
 
 (* for every byte string whose lines are within the scanner limit and every output mode
@@ -53,6 +54,34 @@ Theorem C02_parser_is_classifier : forall rows,
   (exists s e, gen_loop g0 rows = SErr s e) <-> (exists i r, classify_rows rows = VBad i r).
 Proof. exact gen_error_iff. Qed.
 Print Assumptions C02_parser_is_classifier.
+
+(* MASSIVE MODE (partial).  Well-formed: on a heading-free spelling of a forest every block's
+   worker yields a root, under every interleaving (no spurious rejection; with
+   C10_faultless_returns_nil the call returns nil).  Malformed, for the class whose detection does
+   not depend on the shared parser's state -- a non-blank row that does not start with '#' and
+   contains no bullet: whatever the interleaving, its block yields no root, and a pipeline whose
+   generate stage fails on such blocks never returns nil.  For the state-dependent classes
+   (indentation unit, mixed characters, nesting) massive mode is schedule-dependent on documents
+   whose blocks disagree (known findings K1, K2 of C10); those are covered by the correspondence
+   on uniform documents only. *)
+Theorem C02_massive_accepts_spelled : forall sp f sched,
+  spells sp f -> sp_heading sp = false ->
+  interleave (split_rows (map fst (sp_rows sp))) sched ->
+  Forall (fun r => exists o, r = BRoot o)
+         (results_by_block (List.length (split_rows (map fst (sp_rows sp)))) (run_sched p0 sched)).
+Proof.
+  intros sp f sched Hs Hh Hil. destruct Hs as (Hi & Hr & _). rewrite Hh in Hi, Hr.
+  exact (proj2 (massive_forest (sp_unit sp) f (map fst (sp_rows sp)) Hi Hr sched Hil)).
+Qed.
+Print Assumptions C02_massive_accepts_spelled.
+
+Theorem C02_massive_rejects_bulletless_row : forall bs sched j rows row p s d,
+  interleave bs sched -> nth_error bs j = Some rows -> In row rows -> always_bad row ->
+  nth_error (p_stages p) 0 = Some d -> In j (p_items p) ->
+  (forall i, (forall o, block_result i (run_sched p0 sched) <> BRoot o) -> d_fails d i = true) ->
+  reach p s -> st_main s <> Some None.
+Proof. exact massive_rejects_bad_row. Qed.
+Print Assumptions C02_massive_rejects_bulletless_row.
 
 Definition s (x : string) : str := list_ascii_of_string x.
 Definition jc := {| c_bf := Tree.Grower.default_bfmt; c_enc := EncJSON; c_dry := false; c_exts := []; c_noiter := false |}.
